@@ -5,7 +5,8 @@
    acknowledged ++ prefix of in-flight) is decided per run by crash-point enumeration on the
    real crate (exit before the k-th I/O event, fresh process reopens) with the extracted
    acceptor c07_ok, whose meaning is pinned here. *)
-From W Require Import model.Base model.Engine spec.Queue spec.Crash proofs.EngineWF proofs.EngineInv proofs.EngineW proofs.EngineMain proofs.EngineRec proofs.EngineDisk proofs.CrashP.
+From W Require Import model.Base model.Engine spec.Queue spec.Crash proofs.EngineWF proofs.EngineInv proofs.EngineW proofs.EngineMain proofs.EngineRec proofs.EngineDisk proofs.CrashP proofs.EngineCrash.
+From W Require Import model.EngineCfg proofs.EngineC06.
 
 Theorem c07_acceptor_means : forall acked inflight rec,
   c07_ok acked inflight rec = true <->
@@ -28,9 +29,86 @@ Theorem c07_crash_between_operations_partial : forall (c : Cfg) (m : mode) (be :
   forall t, stream (get_ts (reopen c (exec (env_of c m be) init ops)) t) = stream (get_ts (exec (env_of c m be) init ops) t).
 Proof. exact restart_rebuilds_streams. Qed.
 
+(* crash points INSIDE a batch append.  After ANY admissible restart-free history (any mode), for every
+   batch [es] whose entries and topic name are admissible (batch_ok: the plan the next operation would
+   carry out) and every j: the fresh process on the image left by the first j entry writes of the batch
+   (model: batch_crash — first block allocated, rotations and allocations of the plan done, j entries
+   written, nothing published) rebuilds, for the batch's topic, the acknowledged stream followed by
+   EXACTLY the first j entries of the batch, and every other topic's stream unchanged: acknowledged
+   appends survive, only a prefix of the in-flight batch can appear, nothing else. *)
+Theorem c07_crash_inside_batch : forall (c : Cfg) (m : mode) (be : backend) (ops : list op) (t : topic) (es : list entry) (j : nat),
+  cfg_ok c -> Forall (op_ok c) ops ->
+  N.of_nat (length (offered_all ops)) <= u64_max -> sum_len (offered_all ops) <= u64_max ->
+  batch_ok c t es ->
+  let s := exec (env_of c m be) init ops in
+  forall t0, stream (get_ts (batch_crash c s t es j) t0) =
+             if t0 =? t_id t then stream (get_ts s (t_id t)) ++ firstn j es else stream (get_ts s t0).
+Proof. exact crash_inside_batch_reachable. Qed.
+
+(* ... and the same after ANY history WITH restarts outside block-id drift (any mode): the streams do
+   not depend on readers, so un-hydrated readers left by earlier restarts do not matter *)
+Theorem c07_crash_inside_batch_after_restarts : forall (c : Cfg) (m : mode) (be : backend) (ops : list op) (t : topic) (es : list entry) (j : nat),
+  cfg_ok c -> outside_known (env_of c m be) init ops = true ->
+  N.of_nat (length (offered_all ops)) <= u64_max -> sum_len (offered_all ops) <= u64_max ->
+  batch_ok c t es ->
+  let s := exec (env_of c m be) init ops in
+  forall t0, stream (get_ts (batch_crash c s t es j) t0) =
+             if t0 =? t_id t then stream (get_ts s (t_id t)) ++ firstn j es else stream (get_ts s t0).
+Proof. exact crash_inside_batch_after_restarts. Qed.
+
+(* the same in the boolean form the check applies to implementation crash runs *)
+Theorem c07_crash_inside_batch_accepted : forall (c : Cfg) (m : mode) (be : backend) (ops : list op) (t : topic) (es : list entry) (j : nat),
+  cfg_ok c -> Forall (op_ok c) ops ->
+  N.of_nat (length (offered_all ops)) <= u64_max -> sum_len (offered_all ops) <= u64_max ->
+  batch_ok c t es ->
+  let s := exec (env_of c m be) init ops in
+  c07_ok (stream_of s (t_id t)) es (map out_of (stream_of (batch_crash c s t es j) (t_id t))) = true /\
+  forall t0, t0 <> t_id t -> stream_of (batch_crash c s t es j) t0 = stream_of s t0.
+Proof. exact crash_inside_batch_c07_reachable. Qed.
+
+(* crash points inside a SINGLE append.  An append is one positional write (header + payload); what it
+   does before that write — sealing the full block (a flush of bytes already written), allocating the
+   next block (extending the allocator, possibly creating and sizing a fresh file: zero bytes = a
+   never-written block for recovery) — changes nothing recovery reads (invariant DIs: never-written
+   blocks contribute nothing; the model collapses these I/O events into the append step).  So the
+   crash images of an append are the restart of the state before it and of the state after it:
+   the acknowledged stream, possibly followed by the entry in flight; other topics unchanged. *)
+Theorem c07_crash_inside_append : forall (c : Cfg) (m : mode) (be : backend) (ops : list op) (t : topic) (e : entry),
+  cfg_ok c -> Forall (op_ok c) ops ->
+  N.of_nat (length (offered_all ops)) + 1 <= u64_max -> sum_len (offered_all ops) + e_len e <= u64_max ->
+  let s := exec (env_of c m be) init ops in
+  let s' := fst (step (env_of c m be) s (OAppend t e)) in
+  forall image, image = reopen c s \/ image = reopen c s' ->
+    (exists k, (k <= 1)%nat /\ stream (get_ts image (t_id t)) = stream (get_ts s (t_id t)) ++ firstn k [e]) /\
+    forall t0, t0 <> t_id t -> stream (get_ts image t0) = stream (get_ts s t0).
+Proof. exact crash_inside_append. Qed.
+
+(* non-vacuity: a history with a rotation, then a three-entry batch (the second entry rotates) crashing
+   after its second write: exactly the first two entries are recovered behind the acknowledged ones *)
+Definition tq : topic := {| t_id := 1; t_nlen := 2 |}.
+Definition eq_ (p l : N) : entry := {| e_pid := p; e_len := l |}.
+Example c07_witness_inside_batch :
+  let ops := [OAppend tq (eq_ 0 3000); OAppend tq (eq_ 1 3000); ORead tq true] in
+  let es := [eq_ 2 500; eq_ 3 3000; eq_ 4 10] in
+  Forall (op_ok small_cfg) ops /\ name_ok small_cfg tq = true /\
+  stream_of (batch_crash small_cfg (exec (env_of small_cfg Strict Fd) init ops) tq es 2) 1
+  = [eq_ 0 3000; eq_ 1 3000; eq_ 2 500; eq_ 3 3000].
+Proof. split; [repeat constructor|]. vm_compute. split; reflexivity. Qed.
+
 Check c07_acceptor_means : forall acked inflight rec,
   c07_ok acked inflight rec = true <->
   exists k, (k <= length inflight)%nat /\ outs_are rec (acked ++ firstn k inflight) = true.
 Print Assumptions c07_acceptor_means.
 Print Assumptions c07_recovery_of_any_crash_image_partial.
 Print Assumptions c07_crash_between_operations_partial.
+Check c07_crash_inside_batch : forall (c : Cfg) (m : mode) (be : backend) (ops : list op) (t : topic) (es : list entry) (j : nat),
+  cfg_ok c -> Forall (op_ok c) ops ->
+  N.of_nat (length (offered_all ops)) <= u64_max -> sum_len (offered_all ops) <= u64_max ->
+  batch_ok c t es ->
+  let s := exec (env_of c m be) init ops in
+  forall t0, stream (get_ts (batch_crash c s t es j) t0) =
+             if t0 =? t_id t then stream (get_ts s (t_id t)) ++ firstn j es else stream (get_ts s t0).
+Print Assumptions c07_crash_inside_batch.
+Print Assumptions c07_crash_inside_batch_accepted.
+Print Assumptions c07_crash_inside_append.
+Print Assumptions c07_crash_inside_batch_after_restarts.
